@@ -88,6 +88,10 @@ def readable_count(count):
             num_str = format(count / factor, ".0f")
         else:
             num_str = format(count / factor, ".1f")
+            if len(num_str) > 3:
+                # The value was rounded up to 10.0, drop the decimal so that
+                # it is not skipped in favour of "0.0" of the next prefix.
+                num_str = format(count / factor, ".0f")
         if len(num_str) <= 3:
             return num_str + " " + prefix
     # Fallback: use the last prefix
